@@ -476,7 +476,7 @@ class C05(fw.Property):
             "transfer = real BlockwiseRequest x Python RFC 7959 reference server vs Coq client model x Coq reference server (body / representation lengths from the boundary "
             "table 0,1,15..17,...,1023..1025,1124/1125,2047..2049,4096 and random; client exponent 0..6; maximum_payload_size variants; application Block2 hint; server "
             "policies constant / decreasing / arbitrary per step for Block1 and Block2; atomic or stateless acknowledgements; 1-3 representations changing at random steps; "
-            "45% with one of 17 misbehaviours at a random step); scripted = arbitrary response scripts (honest exchange predicted from RFC arithmetic, then 0-3 random field "
+            "45% with one of 21 misbehaviours (incl. a Block2 size exponent that grows mid-transfer, aligned / misaligned, final / non-final) at a random step); scripted = arbitrary response scripts (honest exchange predicted from RFC arithmetic, then 0-3 random field "
             "damages, truncation, transport failures, per-response remote exponent) vs Model/C05.run_script; stack = the transfer through the real "
             "Context/TokenManager/MessageManager with per-datagram loss/duplication in both directions (<= 3 losses in a row) or one exchange lost completely, compared with the "
             "loss-free model run; about 12% of all cases use a TCP-like remote (maximum_block_size_exp 7, maximum_payload_size 1124/1152/2048/3000/8192) against the BERT-capable reference "
